@@ -151,6 +151,8 @@ def op_read_twice(cid, kind, keep, name):
         reader.close()
     except m["errors"].CutplaceError as error:
         out.append(["CLOSE-RAISED", type(error).__name__])
+    if out[0] != out[1]:
+        out.append("FOREIGN: the second pass over the same data differs from the first")  # each pass is a run of its own: flagged whatever a fresh CID does
     return out
 
 
@@ -348,7 +350,8 @@ def judge(case, part):
                 part.nontrivial += 1
             if "FOREIGN" in repr(observed):
                 # an ending that is no cutplace error is wrong even if a fresh CID ends the same way
-                part.fail("%s|%s|run-ended-with-a-foreign-error" % (kind, last), case, "rows, rejections or a cutplace error", observed)
+                what = "second-pass-differs-from-the-first" if "second pass over the same data" in repr(observed) else "run-ended-with-a-foreign-error"
+                part.fail("%s|%s|%s" % (kind, last, what), case, "rows, rejections or a cutplace error; equal passes", observed)
             part.outcome("%s:%s" % (last, "same" if observed == expected else "differs"))
             if observed != expected:
                 part.fail("%s|%s|outcome-differs-from-fresh-cid" % (kind, last), case, expected, observed)
